@@ -204,6 +204,8 @@ class Seg(object):
         self.has_meta = True
         self.endian = '<'
         self.interleaved = False
+        self.inter_flag_only = False    # kTocInterleavedData set on a segment whose only data object is one string channel
+        #                                 (written by some producers; the data is laid out contiguously)
         self.raw_flag = True
         self.pad = 0
         self.version = 4713
@@ -217,6 +219,7 @@ class Seg(object):
         return {
             'listing': [(p, h, idx) for p, h, idx in self.listing], 'newobj': self.new_obj_list,
             'meta': self.has_meta, 'endian': self.endian, 'inter': self.interleaved, 'pad': self.pad,
+            'interleaved_flag_on_single_string_channel': self.inter_flag_only,
             'nchunks': len(self.chunks),
             'active': [(p, hd, idx) for p, hd, idx in self.active],
             'props': {p: [(n, t) for n, t, v in pl] for p, pl in self.props.items()},
@@ -298,7 +301,7 @@ def encode_segment(seg, explicit=False, marker=False, endian=None):
                 parts.append(enc_prop(e, name, pt, val))
         meta = b''.join(parts) + b'\x00' * seg.pad
     mask = ((TOC['meta'] if has_meta else 0) | (TOC['newobj'] if (newobj and has_meta) else 0) |
-            (TOC['raw'] if (len(data) or seg.raw_flag) else 0) | (TOC['inter'] if seg.interleaved else 0) |
+            (TOC['raw'] if (len(data) or seg.raw_flag) else 0) | (TOC['inter'] if (seg.interleaved or getattr(seg, 'inter_flag_only', False)) else 0) |
             (TOC['big'] if e == '>' else 0))
     nxt = 0xFFFFFFFFFFFFFFFF if marker else len(meta) + len(data)
     lead = struct.pack('<i', mask) + struct.pack(e + 'iQQ', seg.version, nxt, len(meta))
@@ -426,6 +429,8 @@ def gen_file(rng, **kw):
             s.interleaved = can_inter and rng.random() < 0.4
         else:
             s.interleaved = can_inter and bool(o['inter'])
+        if len(dobjs) == 1 and dobjs[0][1][0] == 'str' and o['inter'] is None and rng.random() < 0.3:
+            s.inter_flag_only = True
         nonzero = any(obj_size(idx) > 0 for p, idx in dobjs)
         if not nonzero or rng.random() < o['p_zero_chunks']:
             nch = 0
